@@ -261,6 +261,10 @@ def replay(pid, d):
     o = seq_observation(d['call'])
     print('call    :', engine.brief_call(d['call']))
     print('outcome :', o['outcome'], len(o['syms']), 'symbols')
+    if d.get('failing_clauses') == ['requested_mode_not_applicable_refused']:
+        bad = o['outcome']['status'] == 'ok' or 'ValueError' not in o['outcome'].get('mro', [])
+        print('VIOLATION property=%s replay=(this file)' % pid if bad else 'refused with a ValueError, as the inapplicable requested mode demands')
+        return 1 if bad else 0
     if o['outcome']['status'] != 'ok':
         bad = 'ValueError' not in o['outcome'].get('mro', []) or d.get('failing_clauses') in (['count_as_requested'], ['sequence_mode_first_applicable'])
         print('VIOLATION property=%s replay=(this file)' % pid if bad else 'refused with a ValueError')
